@@ -43,6 +43,10 @@ def bounds(tier):
             "complete accessor": "k = 1..%d" % max(j["k"] for j in js if j["side"] == "complete"), "outside": "larger k"}
 
 
+def succ_(v, j, k):
+    return (v * 4 + j) % (4 ** k)
+
+
 def digits_of(e, k, name="d"):
     ds = [z3.Int("%s_%d" % (name, i)) for i in range(k)]
     for d in ds:
@@ -147,6 +151,14 @@ def body(e, L, cfg):
         return {"status": "viol", "why": "complete accessor does not hold the j-th successor in column j", "cex": cex(m, complete=True)}
     if r != "unsat":
         return {"status": "inconclusive", "why": "solver unknown"}
+    # column j holds the successor ending in nucleotide j whatever the order inside a latter-map list
+    lm = {u: [succ_(u, j, k) for j in (3, 1, 2, 0)] for u in range(N)}
+    back = L.latter_map_to_accessor(lm, k)
+    es2 = back[SymInt(v)].elems()
+    good2 = z3.And([zint(es2[j]) == z3.Sum([ds[i] * 4 ** (k - i) for i in range(1, k)] + [z3.IntVal(j)]) for j in range(4)])
+    r, m = e.check(z3.Not(good2))
+    if r == "sat":
+        return {"status": "viol", "why": "latter map with unordered successor lists converts to wrong columns", "cex": cex(m, complete=True, unordered_map=True)}
     # a caller trimming the graph it was given must not change what the next request returns (history)
     for i in range(N):
         acc[i] = -1
